@@ -305,6 +305,28 @@ def run_weights(ctx, setup, tree, n, seed, family=""):
                       "weights handed out for %s were %s and are now %s" % (grids[k], first[k], now))
 
 
+    # history: a SECOND weighted grid with the other boundary setting on the SAME operation (the distributions are shared by every grid built from one
+    # operation) is given the same point sets: its weights must be those of a brand-new operation + grid with that setting (missed seed C15_7)
+    finite = not any(math.isinf(float(x)) for x in list(a) + list(b))
+    if finite and all(len(g) > 3 for g in grids):
+        from sparseSpACE.Grid import GlobalTrapezoidalGridWeighted
+        other_flag = not boundary
+        done = False
+        with ctx.guard("B.w.returns", S_W, wc + kinds + "/second-grid-raises"):
+            with quiet():
+                g_same = GlobalTrapezoidalGridWeighted(a, b, op, boundary=other_flag)
+                g_same.set_grid([list(g) for g in grids], [[0] * len(g) for g in grids])
+                w_same = [np.array([float(x) for x in g_same.weights[k]]) for k in range(d)]
+                f3, op3, grid3, a3, b3, dist3 = build(dict(setup, boundary=other_flag))
+                grid3.set_grid([list(g) for g in grids], [[0] * len(g) for g in grids])
+                w_new = [np.array([float(x) for x in grid3.weights[k]]) for k in range(d)]
+            done = True
+        if done:
+            for k in range(d):
+                ctx.check("B.w.idempotent", w_same[k].shape == w_new[k].shape and close(w_same[k], w_new[k], 1e-13, 1e-16), S_W, wc + dist[k][0] + "/second-grid-other-boundary-flag",
+                          "grid %s, boundary=%s on an operation that already served boundary=%s: weights %s, a brand-new operation gives %s" % (grids[k], other_flag, boundary, w_same[k], w_new[k]))
+
+
 def weights_case(ctx, setup, tree, n, seed, family=""):
     ctx.case({"kind": "w", "setup": setup, "tree": tree, "n": n, "seed": seed, "family": family}, nontrivial=n >= 4)
     run_weights(ctx, setup, tree, n, seed, family)
